@@ -12,6 +12,7 @@ import (
 	"sort"
 	"strconv"
 	"strings"
+	"sync"
 	"time"
 
 	"github.com/olric-data/olric"
@@ -102,6 +103,13 @@ func olricErr(err error) string {
 	}
 	return "other:" + s
 }
+
+var processStart = time.Now()
+
+var (
+	csMu sync.Mutex
+	csIn = map[string]int{}
+)
 
 type dRunner struct {
 	cl    *Cluster
@@ -260,14 +268,18 @@ func (r *dRunner) runOp(op *dOp) map[string]interface{} {
 	key := string(keyb)
 	val, _ := hex.DecodeString(op.V)
 	var ki KeyInfo
-	if op.D != "" && op.Op != "destroy" && op.Op != "scan" && op.Op != "mdel" && op.Op != "stats" && op.Op != "fragkeys" {
+	if op.D != "" && op.Op != "destroy" && op.Op != "scan" && op.Op != "mdel" && op.Op != "stats" && op.Op != "fragkeys" && op.Op != "cs" {
 		ki = r.cl.KeyInfo(op.D, key)
 	}
 	israw := strings.HasPrefix(op.C, "raw")
 	t0 := time.Now()
 	defer func() {
+		t1 := time.Now()
 		ob["t0"] = t0.UnixMilli()
-		ob["t1"] = time.Now().UnixMilli()
+		ob["t1"] = t1.UnixMilli()
+		// monotonic nanoseconds since the harness started (concurrent histories)
+		ob["n0"] = t0.Sub(processStart).Nanoseconds()
+		ob["n1"] = t1.Sub(processStart).Nanoseconds()
 	}()
 	switch op.Op {
 	case "sleep":
@@ -746,6 +758,27 @@ func (r *dRunner) runOp(op *dOp) map[string]interface{} {
 		}
 		ob["r"] = "ok"
 		ob["frags"] = out
+	case "cs":
+		// critical section guarded by a lock the client believes it holds: count concurrent occupants
+		if _, ok := r.locks[op.Tok]; !ok {
+			if _, ok2 := r.rawTv[op.Tok]; !ok2 {
+				ob["r"] = "skipped" // the client's Lock was refused: it stays outside
+				return ob
+			}
+		}
+		csMu.Lock()
+		csIn[op.K]++
+		n := csIn[op.K]
+		csMu.Unlock()
+		time.Sleep(time.Duration(op.Ms) * time.Millisecond)
+		csMu.Lock()
+		if csIn[op.K] > n {
+			n = csIn[op.K]
+		}
+		csIn[op.K]--
+		csMu.Unlock()
+		ob["r"] = "ok"
+		ob["occupants"] = n
 	case "keyinfo":
 		ob["r"] = "ok"
 		ob["hkey"] = fmt.Sprint(ki.HKey)
